@@ -18,7 +18,8 @@ def oracle(case, rec, group):
     none, ign, one = rec["globals"]
     # after the program (completed or aborted by an exception propagating out of guarded regions): initial state again
     if not none or ign != bool(case["cfg"]["ign"]) or not one:
-        out.append(dict(op="restore", key="after-%s" % ("exception" if rec["exn"] else "return"),
+        blk = any(s[0] in ("oif", "owhile", "ofor") for s in case["prog"])
+        out.append(dict(op="restore", key="after-%s%s" % ("exception" if rec["exn"] else "return", "-inside-block-api-region" if blk and rec["exn"] else ""),
                         what="after the outermost guarded region ended (%s) the guard / error-suppression mode / constant ONE are not what they were before" % (rec["exn"] or "normally"),
                         observed=dict(guard_is_None=none, ignore_errors=ign, ONE_is_constant=one), pc=rec.get("exn_pc")))
     # inside nested regions the effective guard is the conjunction of the enclosing conditions
